@@ -228,10 +228,18 @@ pub fn check_case(ctx: &mut Ctx, ps: &mut Parsers, case: &Case) {
     }
 
     // events
-    let events: Option<Vec<Event>> = crate::core::guarded(|| PullParser::new(input, ext).collect()).ok();
-    let Some(events) = events else {
-        ctx.count("panic_in_events(C03)");
-        return;
+    let events: Vec<Event> = match crate::core::guarded(|| PullParser::new(input, ext).collect()) {
+        Ok(ev) => ev,
+        Err(p) => {
+            // the parser cutting its input at one of its own offsets that is out of bounds or inside a character is this
+            // property failing before any span is reported (other panics are C03's)
+            if p.message.contains("char boundary") || p.message.contains("byte index") || p.message.contains("out of bounds") || p.message.contains("out of range") {
+                ctx.violation(case, "spans", "parser_slices_input_at_a_bad_offset", format!("{} at {}", p.message, p.location));
+            } else {
+                ctx.count("panic_in_events(C03)");
+            }
+            return;
+        }
     };
     let has_error = events.iter().any(|e| matches!(e, Event::Error(_)));
     let mut prev: Option<(Span, &'static str)> = None;
@@ -420,6 +428,7 @@ pub const DIAG_SEEDS: &[&str] = &[
     // what a caller's callbacks may object to: recipe references (names written with blanks, comments and escapes before
     // the brace), metadata entries in both syntaxes
     "Napper de @@./sauces/beurre blanc {100%ml} et @@pâte  brisée{} ou @@a [- c -] b{} puis @@x\\ y{1}.", "---\ntitle: x\nservings: 2\n---\n@@dough{1} @./sides/rice{}", ">> source: y\n@@dough {}",
+    "Moudre le @café puis verser le @&café(froid) dans la tasse.", "Use the #鍋 then the #&鍋(大) and @sel then @&sel(é).", "Compter environ 5\\€", "a\\é\nb\\€-- c\nc\\é[- c -] d\\é\\é e\\é@x{} f\\＠", "Écraser @ail{ %gousses} et #pot{ =%x} ~{= %min}.",
     "Boil the ~egg(soft) and ~x y(z) now.", "Rest ~{2% kg} and ~{5%  foo} and ~{1 %\tmin}.", "Let ~a{}(n) ~{1%min}(m)",
 ];
 
